@@ -59,7 +59,7 @@ struct Affine {
             long double e = (long double)num / (long double)den;
             long double scale = std::fabs((long double)xi * sp.fineU) + sp.fineD;  // size of the larger intermediate
             long double epsr = (long double)std::numeric_limits<CT>::epsilon(); if (std::is_floating_point<T>::value && (long double)std::numeric_limits<T>::epsilon() > epsr) epsr = (long double)std::numeric_limits<T>::epsilon();   // the result is rounded to T
-            long double tol = 4 * epsr * (scale * (long double)sp.mV.d / (long double)sp.mV.n / ((long double)sp.fineV) + std::fabs(e)) + 1e-30L;
+            long double tol = 4 * epsr * (scale / (long double)sp.fineV + std::fabs(e)) + 1e-30L;   // scale is in units of the finest unit ff; one target unit is fineV of them
             if (std::is_integral<T>::value) { if (num % den != 0) return; if (!in_range<T>(num / den)) return; tol += 0; }
             ++n_conv_asserted;
             long double r = (long double)conv(x), r2 = (long double)conv2(x);
